@@ -1,6 +1,6 @@
 (* Reflection shard 3 of the slot product: which slot documents of
    Gen/SlotDocs3.v fail through the whole model (computed by the kernel). *)
-From MF Require Import Lib.Base Model.SlotDoc Model.SlotCheck Gen.SlotDocs3.
+From MF Require Import Lib.Base Model.SlotDoc Model.SlotCheck Model.PPrint Model.Roundtrip Gen.SlotDocs3.
 
 Definition failing_ids : list (str * str * str * str) :=
   Eval vm_compute in map slot_id (failing slotdocs).
@@ -11,4 +11,27 @@ Proof. vm_compute. reflexivity. Qed.
 Definition n_docs : nat := Eval vm_compute in length slotdocs.
 
 Lemma bookkeeping_all : forallb (fun sd => bookkeeping_ok (sd_text sd)) slotdocs = true.
+Proof. vm_compute. reflexivity. Qed.
+
+(* ---- printer-side compositions (C01, C04, C06) on the root-level documents of the shard *)
+Definition is_root_only (sd : slotdoc) : bool := str_eqb (sd_ctx sd) (Str "root/only").
+Definition root_docs : list slotdoc := filter is_root_only slotdocs.
+
+Definition rt_check (sd : slotdoc) : bool := roundtrip_ok default_opts (sd_text sd).
+Definition idem_check (sd : slotdoc) : bool := idempotent_ok default_opts (sd_text sd).
+Definition opts_check (sd : slotdoc) : bool := forallb (fun o => options_ok o (sd_text sd)) option_sets.
+
+Definition rt_failing_ids : list (str * str * str * str) :=
+  Eval vm_compute in map slot_id (filter (fun sd => negb (rt_check sd)) root_docs).
+Lemma rt_failing_ids_spec : map slot_id (filter (fun sd => negb (rt_check sd)) root_docs) = rt_failing_ids.
+Proof. vm_compute. reflexivity. Qed.
+
+Definition idem_failing_ids : list (str * str * str * str) :=
+  Eval vm_compute in map slot_id (filter (fun sd => negb (idem_check sd)) root_docs).
+Lemma idem_failing_ids_spec : map slot_id (filter (fun sd => negb (idem_check sd)) root_docs) = idem_failing_ids.
+Proof. vm_compute. reflexivity. Qed.
+
+Definition opts_failing_ids : list (str * str * str * str) :=
+  Eval vm_compute in map slot_id (filter (fun sd => negb (opts_check sd)) root_docs).
+Lemma opts_failing_ids_spec : map slot_id (filter (fun sd => negb (opts_check sd)) root_docs) = opts_failing_ids.
 Proof. vm_compute. reflexivity. Qed.
